@@ -87,6 +87,27 @@ def sMaxHand (ln2 f2c amp0 rms ic oc A B xs ys : α) : α :=
 /-- AeRes: `elliptical_gaussian(x, y, peak, xo-1, yo-1, sx*FWHM2CC, sy*FWHM2CC, theta)` -/
 def renderValHand (f2c peak xo yo sx sy theta x y : α) : α :=
   gaussHand x y peak (xo - R.ofNat 1) (yo - R.ofNat 1) (sx * f2c) (sy * f2c) theta
+
+/-! what `params.add(prefix + NAME, value=, min=, max=)` receives for the five bounded parameters (theta: no limits);
+    `xo0, yo0` = the brightest pixel of the summit -/
+def pAmpValuePosHand (_ln2 _f2c amp0 _rms _ic _oc _A _B _xs _ys _xo0 _yo0 : α) : α := amp0
+def pAmpMinPosHand (ln2 f2c amp0 rms ic oc A B xs ys _xo0 _yo0 : α) : α := ampMinPosHand ln2 f2c amp0 rms ic oc A B xs ys
+def pAmpMaxPosHand (ln2 f2c amp0 rms ic oc A B xs ys _xo0 _yo0 : α) : α := ampMaxPosHand ln2 f2c amp0 rms ic oc A B xs ys
+def pAmpValueNegHand (_ln2 _f2c amp0 _rms _ic _oc _A _B _xs _ys _xo0 _yo0 : α) : α := amp0
+def pAmpMinNegHand (ln2 f2c amp0 rms ic oc A B xs ys _xo0 _yo0 : α) : α := ampMinNegHand ln2 f2c amp0 rms ic oc A B xs ys
+def pAmpMaxNegHand (ln2 f2c amp0 rms ic oc A B xs ys _xo0 _yo0 : α) : α := ampMaxNegHand ln2 f2c amp0 rms ic oc A B xs ys
+def pXoValueHand (_ln2 _f2c _amp0 _rms _ic _oc _A _B _xs _ys xo0 _yo0 : α) : α := xo0
+def pXoMinHand (ln2 f2c amp0 rms ic oc A B xs ys xo0 _yo0 : α) : α := xo0 - xoLimHand ln2 f2c amp0 rms ic oc A B xs ys
+def pXoMaxHand (ln2 f2c amp0 rms ic oc A B xs ys xo0 _yo0 : α) : α := xo0 + xoLimHand ln2 f2c amp0 rms ic oc A B xs ys
+def pYoValueHand (_ln2 _f2c _amp0 _rms _ic _oc _A _B _xs _ys _xo0 yo0 : α) : α := yo0
+def pYoMinHand (ln2 f2c amp0 rms ic oc A B xs ys _xo0 yo0 : α) : α := yo0 - xoLimHand ln2 f2c amp0 rms ic oc A B xs ys
+def pYoMaxHand (ln2 f2c amp0 rms ic oc A B xs ys _xo0 yo0 : α) : α := yo0 + xoLimHand ln2 f2c amp0 rms ic oc A B xs ys
+def pSxValueHand (ln2 f2c amp0 rms ic oc A B xs ys _xo0 _yo0 : α) : α := sxInitHand ln2 f2c amp0 rms ic oc A B xs ys
+def pSxMinHand (ln2 f2c amp0 rms ic oc A B xs ys _xo0 _yo0 : α) : α := sMinHand ln2 f2c amp0 rms ic oc A B xs ys
+def pSxMaxHand (ln2 f2c amp0 rms ic oc A B xs ys _xo0 _yo0 : α) : α := sMaxHand ln2 f2c amp0 rms ic oc A B xs ys
+def pSyValueHand (ln2 f2c amp0 rms ic oc A B xs ys _xo0 _yo0 : α) : α := syInitHand ln2 f2c amp0 rms ic oc A B xs ys
+def pSyMinHand (ln2 f2c amp0 rms ic oc A B xs ys _xo0 _yo0 : α) : α := sMinHand ln2 f2c amp0 rms ic oc A B xs ys
+def pSyMaxHand (ln2 f2c amp0 rms ic oc A B xs ys _xo0 _yo0 : α) : α := sMaxHand ln2 f2c amp0 rms ic oc A B xs ys
 def sxMinHand (ln2 f2c amp0 rms ic oc A B xs ys : α) : α := sMinHand ln2 f2c amp0 rms ic oc A B xs ys
 def syMinHand (ln2 f2c amp0 rms ic oc A B xs ys : α) : α := sMinHand ln2 f2c amp0 rms ic oc A B xs ys
 def sxMaxHand (ln2 f2c amp0 rms ic oc A B xs ys : α) : α := sMaxHand ln2 f2c amp0 rms ic oc A B xs ys
